@@ -83,9 +83,7 @@ def fam_relay(w: World) -> None:
     max_batch = ch.choice([None, None, 1, n], 'max_batch')
     flavour = ch.choice(['async', 'mixed', 'sync'], 'aio.flavour')
     S.plan_pauses(w, {'async': True, 'middlewares': [], 'handlers': {}}, n + 1)
-    from .c01 import max_nesting
-    if max_nesting(body.decode('utf-8', 'replace')) > 64:
-        w.probe('nesting_beyond_quantifier_skipped')
+    if S.outside_quantifier(w, body.decode('utf-8', 'replace')):
         return
     w.scenario = {'content_type': ctype, 'header_class': hdr_class, 'body_kind': body_kind,
                   'body': body[:200].decode('utf-8', 'replace'), 'status_fn': status_fn, 'path': path, 'sub': sub,
@@ -200,7 +198,7 @@ def _strip_free_text(doc: Any) -> Any:
 
 FAMILIES = {'http.relay': fam_relay}
 PLAN = {
-    'quick': {'http.relay': 6000},
+    'quick': {'http.relay': 30000},
     'thorough': {'http.relay': 60000},
 }
 CHUNK = 40
